@@ -136,6 +136,15 @@ class Sort(Reordering):
                 done=False,
                 messages=(f"{current.operation} is order-dependent",),
             )
+        if isinstance(current.operation, Reordering):
+            # A later sort takes precedence over an earlier one, with the
+            # earlier one only breaking ties; swapping them changes the order.
+            return UnaryCommutator(
+                first=None,
+                second=current.operation,
+                done=False,
+                messages=(f"{current.operation} is a reordering",),
+            )
         return UnaryCommutator(self, current.operation)
 
     def simplify(self, upstream: UnaryOperation) -> UnaryOperation | None:
